@@ -1119,14 +1119,22 @@ def run_callers(rec, r):
     ps = P.parsets[0]
     # calibration objective: a y-factor that makes the compartment exceed the total => refused => objective is +inf
     for yf in (3.0, 10.0):
-        val = calibration._calculate_objective([yf], [("c1", "pa")], [("alive", "pa", 1.0, "fractional")], ps.copy(), P)
+        try:
+            val = calibration._calculate_objective([yf], [("c1", "pa")], [("alive", "pa", 1.0, "fractional")], ps.copy(), P)
+        except Exception as e:
+            rec.violation({"api": "calibration._calculate_objective", "case": "bad-init-wrong-exception", "type": type(e).__name__},
+                          f"an inadmissible initialisation (c1 x {yf}) raised {type(e).__name__} ({str(e)[:160]}) instead of being refused with BadInitialization (which calibration turns into objective = inf)", {"spec": spec, "y_factor": yf})
+            continue
         ok = val == np.inf
         rec.count("callers.objective_inf")
         rec.case({"caller": "_calculate_objective", "y": yf}, True)
         if not ok:
             rec.violation({"api": "calibration._calculate_objective", "case": "bad-init-not-rejected"}, f"objective for an inadmissible initialisation (c1 x {yf}) is {val!r}, expected inf", {"spec": spec, "y_factor": yf})
-    val = calibration._calculate_objective([1.0], [("c1", "pa")], [("alive", "pa", 1.0, "fractional")], ps.copy(), P)
-    if not np.isfinite(val):
+    try:
+        val = calibration._calculate_objective([1.0], [("c1", "pa")], [("alive", "pa", 1.0, "fractional")], ps.copy(), P)
+    except Exception as e:
+        val = f"{type(e).__name__}: {str(e)[:160]}"
+    if isinstance(val, str) or not np.isfinite(val):
         rec.violation({"api": "calibration._calculate_objective", "case": "good-init-rejected"}, f"objective for the consistent databook is {val!r}", {"spec": spec})
     # sampled runs: refusals are retried, anything else propagates
     calls = {"n": 0}
